@@ -7,9 +7,209 @@ package damage
 import (
 	"encoding/hex"
 	"fmt"
+	"strings"
 
 	"verif/harness/internal/hx"
 )
+
+// fatBoundaryLinks: cluster numbers at the three limits a FAT reader has to tell apart - the number of
+// entries the on-disk FAT holds (N: fat32 len/4, fat16 len/2, fat12 len*2/3), the highest index the
+// library's in-memory table reports (MaxCluster(), asked of the real table that fatNN.Read built from
+// the intact image bytes) and the end of the data area (cluster count + 2) - each with its two
+// neighbours, written (i) into a FAT link of a file's chain (the link of its first cluster and the one
+// that held the end-of-chain mark), identically in every FAT copy (Read refuses copies that differ), and
+// (ii) into the first-cluster field of a file's and of a directory's entry in the root directory. The
+// byte-value set of the enumeration (0, FF, 80, 7F, old+-1.., small integers) holds none of these values,
+// and the fatwalk engine's boundary families run on a table made by the fat12 hook, not on one that
+// fatNN.Read decoded. Stat keys fat.boundary_link.<type>.<site>.<value>.
+func fatBoundaryLinks(c *hx.Ctx, b baseImage) []string {
+	img := b.img[b.start:]
+	bps := int64(le.Uint16(img[11:]))
+	spc := int64(img[13])
+	reserved := int64(le.Uint16(img[14:]))
+	nfats := int64(img[16])
+	rootEnts := int64(le.Uint16(img[17:]))
+	total := int64(le.Uint16(img[19:]))
+	if total == 0 {
+		total = int64(le.Uint32(img[32:]))
+	}
+	spf := int64(le.Uint16(img[22:]))
+	rootCluster := int64(0)
+	if b.kind == "fat32" {
+		spf = int64(le.Uint32(img[36:]))
+		rootCluster = int64(le.Uint32(img[44:]))
+	}
+	if bps == 0 || spc == 0 || nfats == 0 || spf == 0 {
+		return nil
+	}
+	fatBytes, fatOff := spf*bps, reserved*bps
+	rootOff := fatOff + nfats*fatBytes
+	dataOff := rootOff + (rootEnts*32+bps-1)/bps*bps
+	bpc := spc * bps
+	clusterCount := (total*bps - dataOff) / bpc
+	var n, width int64
+	switch b.kind {
+	case "fat12":
+		n, width = fatBytes*2/3, 1<<12
+	case "fat16":
+		n, width = fatBytes/2, 1<<16
+	default:
+		n, width = fatBytes/4, 1<<28
+	}
+	// entry k of FAT copy 0, and the patch that sets entry k to v in every copy
+	get := func(k int64) int64 {
+		switch b.kind {
+		case "fat12":
+			w := int64(le.Uint16(img[fatOff+k*3/2:]))
+			if k%2 == 0 {
+				return w & 0xFFF
+			}
+			return w >> 4
+		case "fat16":
+			return int64(le.Uint16(img[fatOff+2*k:]))
+		}
+		return int64(le.Uint32(img[fatOff+4*k:])) & 0x0FFFFFFF
+	}
+	set := func(k, v int64) string {
+		var segs []string
+		for f := int64(0); f < nfats; f++ {
+			base := fatOff + f*fatBytes
+			var at int64
+			var val []byte
+			switch b.kind {
+			case "fat12":
+				at = base + k*3/2
+				w := int64(le.Uint16(img[at:]))
+				if k%2 == 0 {
+					w = w&0xF000 | v
+				} else {
+					w = w&0x000F | v<<4
+				}
+				val = []byte{byte(w), byte(w >> 8)}
+			case "fat16":
+				at, val = base+2*k, []byte{byte(v), byte(v >> 8)}
+			default:
+				at = base + 4*k
+				w := int64(le.Uint32(img[at:]))&0xF0000000 | v
+				val = []byte{byte(w), byte(w >> 8), byte(w >> 16), byte(w >> 24)}
+			}
+			segs = append(segs, fmt.Sprintf("%d:%s", b.start+at, hex.EncodeToString(val)))
+		}
+		return strings.Join(segs, ",")
+	}
+	isEOC := func(v int64) bool { return v >= width-8 }
+	// MaxCluster() of the table the real Read builds from these bytes (hook VerifMaxCluster, promoted from
+	// the embedded fat12.FileSystem); without the hook the value the three tableFromBytes compute today
+	maxCl := n
+	func() {
+		defer func() { _ = recover() }()
+		fsys, err := openFS(b.spec(), &overlay{base: b.img}, int64(len(b.img)))
+		if err != nil {
+			return
+		}
+		if h, ok := fsys.(interface{ VerifMaxCluster() uint32 }); ok {
+			maxCl = int64(h.VerifMaxCluster())
+			c.Stat("fat.boundary_link." + b.kind + ".max-cluster-from-library")
+		}
+	}()
+	// the root directory's 32-byte entries (offsets relative to the filesystem start)
+	var ents []int64
+	if rootEnts > 0 {
+		for i := int64(0); i < rootEnts; i++ {
+			ents = append(ents, rootOff+32*i)
+		}
+	} else {
+		for k, steps := rootCluster, 0; k >= 2 && k < n && !isEOC(k) && steps < 64; k, steps = get(k), steps+1 {
+			for o := int64(0); o < bpc; o += 32 {
+				ents = append(ents, dataOff+(k-2)*bpc+o)
+			}
+		}
+	}
+	first := func(e int64) int64 { return int64(le.Uint16(img[e+26:])) | int64(le.Uint16(img[e+20:]))<<16 }
+	fileEnt, dirEnt := int64(-1), int64(-1)
+	for _, e := range ents {
+		if e+32 > int64(len(img)) || img[e] == 0 {
+			break
+		}
+		attr := img[e+11]
+		if img[e] == 0xE5 || img[e] == '.' || attr&0x0F == 0x0F || attr&0x08 != 0 {
+			continue
+		}
+		fc := first(e)
+		if fc < 2 || fc >= n {
+			continue
+		}
+		if attr&0x10 != 0 {
+			if dirEnt < 0 {
+				dirEnt = e
+			}
+		} else if int64(le.Uint32(img[e+28:])) > 2*bpc && (fileEnt < 0) {
+			fileEnt = e
+		}
+	}
+	type val struct {
+		v     int64
+		names []string
+	}
+	var vals []val
+	addv := func(v int64, name string) {
+		for i := range vals {
+			if vals[i].v == v {
+				vals[i].names = append(vals[i].names, name)
+				return
+			}
+		}
+		vals = append(vals, val{v, []string{name}})
+	}
+	for _, l := range []struct {
+		name string
+		v    int64
+	}{{"N", n}, {"max", maxCl}, {"limit", clusterCount + 2}} {
+		addv(l.v-1, l.name+"-1")
+		addv(l.v, l.name)
+		addv(l.v+1, l.name+"+1")
+	}
+	var out []string
+	emit := func(site, patch string, v val, what string) {
+		out = append(out, fmt.Sprintf("%s\t%s crafted fat-boundary-link/%s: %s = %d (%s; FAT entries N=%d, MaxCluster()=%d, data clusters+2=%d)",
+			patch, b.name, site, what, v.v, strings.Join(v.names, "="), n, maxCl, clusterCount+2))
+		for _, nm := range v.names {
+			c.Stat("fat.boundary_link." + b.kind + "." + site + "." + nm)
+		}
+	}
+	for _, v := range vals {
+		if v.v < 0 || v.v >= width {
+			for _, nm := range v.names {
+				c.Stat("fat.boundary_link." + b.kind + ".wider-than-an-entry." + nm)
+			}
+			continue
+		}
+		if fileEnt >= 0 {
+			fc := first(fileEnt)
+			emit("link-first", set(fc, v.v), v, fmt.Sprintf("FAT link of cluster %d (first of the file at byte %d), all %d copies", fc, fileEnt, nfats))
+			last := fc
+			for steps := int64(0); steps < n && get(last) >= 2 && get(last) < n && !isEOC(get(last)); steps++ {
+				last = get(last)
+			}
+			if last != fc {
+				emit("link-last", set(last, v.v), v, fmt.Sprintf("FAT link of cluster %d (end of the chain of the file at byte %d), all %d copies", last, fileEnt, nfats))
+			}
+			emit("dirent-file", fmt.Sprintf("%d:%02x%02x,%d:%02x%02x", b.start+fileEnt+26, byte(v.v), byte(v.v>>8), b.start+fileEnt+20, byte(v.v>>16), byte(v.v>>24)),
+				v, fmt.Sprintf("first cluster of the file entry at byte %d", fileEnt))
+		}
+		if dirEnt >= 0 {
+			emit("dirent-dir", fmt.Sprintf("%d:%02x%02x,%d:%02x%02x", b.start+dirEnt+26, byte(v.v), byte(v.v>>8), b.start+dirEnt+20, byte(v.v>>16), byte(v.v>>24)),
+				v, fmt.Sprintf("first cluster of the directory entry at byte %d", dirEnt))
+		}
+	}
+	if fileEnt < 0 {
+		c.Stat("fat.boundary_link." + b.kind + ".no-multi-cluster-file-in-root")
+	}
+	if dirEnt < 0 {
+		c.Stat("fat.boundary_link." + b.kind + ".no-directory-in-root")
+	}
+	return out
+}
 
 // bothEndian encodes a 32-bit value the iso9660 way: little endian, then big endian.
 func bothEndian(v uint32) []byte {
@@ -22,6 +222,9 @@ func craftedCases(c *hx.Ctx, b baseImage) []string {
 	defer func() { _ = recover() }() // a base the small parsers below do not understand gets no crafted case
 	if b.kind == "iso9660" {
 		out = append(out, isoCEEmptyArea(c, b)...)
+	}
+	if b.kind == "fat12" || b.kind == "fat16" || b.kind == "fat32" {
+		out = append(out, fatBoundaryLinks(c, b)...)
 	}
 	return out
 }
